@@ -1,8 +1,8 @@
 (* The reviewed list of nondeterminism sources in the packages that take part in circuit
    compilation (frontend/..., constraint, constraint/{bn254,tinyfield,solver}, internal/{kvstore,
    utils,frontendtype}, std/...).  It is compared on every run with the list regenerated from
-   the current source by tools/xlate (file, function, kind, ranged expression, hash of the loop
-   body): a new map-range / goroutine / select / pool / clock / randomness use, or a changed loop
+   the current source by tools/xlate (file, function, kind, ranged expression or variable, hash of the loop
+   body or type of the package-level variable): a new map-range / goroutine / select / pool / clock / randomness use, or a changed loop
    body, is an undischarged obligation.  Each entry names the argument that makes it harmless. *)
 From Coq Require Import List String Bool.
 Import ListNotations.
@@ -17,15 +17,26 @@ Inductive why :=
 | UniformAttribute    (* attribute shared by all elements: first_of_uniform *)
 | SingleProducer      (* one goroutine feeding one channel consumed in order *)
 | PoolOfScratch       (* sync.Pool of buffers that are reset before use *)
-| LoggingOnly.        (* wall-clock time used for log lines only *)
+| LoggingOnly         (* wall-clock time used for log lines only *)
+| RegistryOrConstant. (* package-level map / slice / Once / lock whose content is fixed by package initialisation,
+                        explicit user registration or a sync.Once-guarded deterministic precomputation: compilations
+                        read it, they never write circuit-dependent data into it *)
 
 Definition reviewed : list (string * string * string * string * string * why) := [
+  ("constraint/bn254/gkr.go", "", "global", "constraint/bn254.hasBuilderLock", "sync.RWMutex", RegistryOrConstant);
+  ("constraint/bn254/gkr.go", "", "global", "constraint/bn254.hashBuilderRegistry", "map[string]func() hash.Hash", RegistryOrConstant);
   ("constraint/bn254/gkr.go", "GkrSolvingData.dumpAssignments", "maprange", "d.assignments", "b698aeb13b8c", SolveTimeOnly);
+  ("constraint/bn254/solver.go", "", "global", "github.com/consensys/gnark-crypto/field/pool.BigInt", "pool.bigIntPool", PoolOfScratch);
   ("constraint/bn254/solver.go", "newSolver", "maprange", "cs.MHintsDependencies", "27cfc3750e96", ErrorTextOnly);
   ("constraint/bn254/solver.go", "solver.run", "go", "", "", SolveTimeOnly);
   ("constraint/bn254/system.go", "system.Solve", "use:time.Now", "", "", LoggingOnly);
+  ("constraint/core.go", "", "global", "constraint.bufPool", "sync.Pool", PoolOfScratch);
   ("constraint/core.go", "System.GetCommitments", "use:sync.Pool", "", "", PoolOfScratch);
+  ("constraint/solver/hint.go", "", "global", "constraint/solver.newStyleAnonRe", "*regexp.Regexp", RegistryOrConstant);
+  ("constraint/solver/hint_registry.go", "", "global", "constraint/solver.registry", "map[solver.HintID]solver.Hint", RegistryOrConstant);
+  ("constraint/solver/hint_registry.go", "", "global", "constraint/solver.registryM", "sync.RWMutex", RegistryOrConstant);
   ("constraint/solver/hint_registry.go", "GetRegisteredHints", "maprange", "registry", "1f5575c7198c", SolveTimeOnly);
+  ("constraint/tinyfield/solver.go", "", "global", "github.com/consensys/gnark-crypto/field/pool.BigInt", "pool.bigIntPool", PoolOfScratch);
   ("constraint/tinyfield/solver.go", "newSolver", "maprange", "cs.MHintsDependencies", "27cfc3750e96", ErrorTextOnly);
   ("constraint/tinyfield/solver.go", "solver.run", "go", "", "", SolveTimeOnly);
   ("constraint/tinyfield/system.go", "system.Solve", "use:time.Now", "", "", LoggingOnly);
@@ -34,14 +45,37 @@ Definition reviewed : list (string * string * string * string * string * why) :=
   ("frontend/cs/scs/builder.go", "builder.GetWireConstraints", "maprange", "lookup", "7638ff6c4bfa", CollectSortAct);
   ("frontend/cs/scs/builder.go", "builder.GetWiresConstraintExact", "maprange", "wireIDsSet", "7638ff6c4bfa", CollectSortAct);
   ("frontend/witness.go", "NewWitness", "go", "", "", SingleProducer);
+  ("internal/utils/field_to_curve.go", "", "global", "internal/utils.curves", "map[string]ecc.ID", RegistryOrConstant);
   ("internal/utils/parallelize.go", "Parallelize", "go", "", "", SolveTimeOnly);
   ("std/algebra/emulated/fields_bls12381/e2.go", "NewExt2", "maprange", "pwrs", "4fe7fad001b7", MapRebuild);
   ("std/algebra/emulated/fields_bls12381/e2.go", "NewExt2", "maprange", "v", "d8bf9650e581", MapRebuild);
   ("std/algebra/emulated/fields_bn254/e2.go", "NewExt2", "maprange", "pwrs", "c4bd0c4888e8", MapRebuild);
   ("std/algebra/emulated/fields_bn254/e2.go", "NewExt2", "maprange", "v", "cfeb053080fc", MapRebuild);
+  ("std/algebra/native/sw_bls12377/inner.go", "", "global", "std/algebra/native/sw_bls12377.computedCurveTable", "[][2]*big.Int", RegistryOrConstant);
+  ("std/algebra/native/sw_bls12377/inner.go", "", "global", "std/algebra/native/sw_bls12377.computedTwistTable", "[][4]*big.Int", RegistryOrConstant);
+  ("std/algebra/native/sw_bls12377/inner.go", "", "global", "std/algebra/native/sw_bls12377.mappingOnce", "sync.Once", RegistryOrConstant);
+  ("std/algebra/native/sw_bls24315/inner.go", "", "global", "std/algebra/native/sw_bls24315.computedCurveTable", "[][2]*big.Int", RegistryOrConstant);
+  ("std/algebra/native/sw_bls24315/inner.go", "", "global", "std/algebra/native/sw_bls24315.computedTwistTable", "[][8]*big.Int", RegistryOrConstant);
+  ("std/algebra/native/sw_bls24315/inner.go", "", "global", "std/algebra/native/sw_bls24315.mappingOnce", "sync.Once", RegistryOrConstant);
+  ("std/compress/internal/io.go", "", "global", "std/compress/internal.wordNbBitsToHint", "map[int]solver.Hint", RegistryOrConstant);
   ("std/gkr/gkr.go", "outputsList", "maprange", "ins", "4a873620ca30", ClearLoop);
   ("std/gkr/gkr.go", "WireAssignment.NumInstances", "maprange", "a", "f6c3024bb8d8", UniformAttribute);
-  ("std/gkr/gkr.go", "WireAssignment.NumVars", "maprange", "a", "bb1fd24a29e0", UniformAttribute)
+  ("std/gkr/gkr.go", "WireAssignment.NumVars", "maprange", "a", "bb1fd24a29e0", UniformAttribute);
+  ("std/gkr/hints.go", "", "global", "std/gkr.testEngineGkrSolvingData", "map[string]any", SolveTimeOnly);
+  ("std/gkr/registry.go", "", "global", "std/gkr.gates", "map[gkr.GateName]*gkr.Gate", RegistryOrConstant);
+  ("std/gkr/registry.go", "", "global", "std/gkr.gatesLock", "sync.Mutex", RegistryOrConstant);
+  ("std/hash/hash.go", "", "global", "std/hash.builderRegistry", "map[string]func(api frontend.API) (hash.FieldHasher, error)", RegistryOrConstant);
+  ("std/hash/hash.go", "", "global", "std/hash.lock", "sync.RWMutex", RegistryOrConstant);
+  ("std/hash/mimc/encrypt.go", "", "global", "std/hash/mimc.encryptFuncs", "map[ecc.ID]func(mimc.MiMC, frontend.Variable) frontend.Variable", RegistryOrConstant);
+  ("std/hash/mimc/encrypt.go", "", "global", "std/hash/mimc.newMimc", "map[ecc.ID]func(frontend.API) mimc.MiMC", RegistryOrConstant);
+  ("std/hash/mimc/mimc.go", "", "global", "std/hash/mimc.encryptFuncs", "map[ecc.ID]func(mimc.MiMC, frontend.Variable) frontend.Variable", RegistryOrConstant);
+  ("std/hash/mimc/mimc.go", "", "global", "std/hash/mimc.newMimc", "map[ecc.ID]func(frontend.API) mimc.MiMC", RegistryOrConstant);
+  ("std/hash/ripemd160/ripemd160.go", "", "global", "std/hash/ripemd160._seed", "[]uints.U32", RegistryOrConstant);
+  ("std/hash/sha2/sha2.go", "", "global", "std/hash/sha2._seed", "[]uints.U32", RegistryOrConstant);
+  ("std/hints.go", "", "global", "std.registerOnce", "sync.Once", RegistryOrConstant);
+  ("std/permutation/poseidon2/gkr-poseidon2/internal/bls12-377/gates.go", "", "global", "std/permutation/poseidon2/gkr-poseidon2/internal/bls12-377.initOnce", "sync.Once", RegistryOrConstant);
+  ("std/permutation/sha2/sha2block.go", "", "global", "std/permutation/sha2._K", "[]uints.U32", RegistryOrConstant);
+  ("std/polynomial/polynomial.go", "", "global", "std/polynomial.minFoldScaledLogSize", "int", RegistryOrConstant)
 ].
 
 Definition site := (string * string * string * string * string)%type.
